@@ -46,7 +46,13 @@ fn project(frames: &[Event]) -> Vec<Value> {
 }
 
 fn run_pipe(log: &EventLog, offset: u64, chunks: &[Vec<u8>]) -> Obs {
-    let fut = ripd::verif_export::sse_pipe_run(log, "s", offset, chunks, false);
+    run_pipe_mode(log, offset, chunks, false)
+}
+
+/// `compat` = the validation mode of stateless-history runs (missing item ids are tolerated for
+/// VALIDATION; the payload carried by the frame is still the provider's).
+fn run_pipe_mode(log: &EventLog, offset: u64, chunks: &[Vec<u8>], compat: bool) -> Obs {
+    let fut = ripd::verif_export::sse_pipe_run(log, "s", offset, chunks, compat);
     let Some((frames, saw_done, next_seq, calls)) = fut.now_or_never() else {
         machinery_failure("sse pipe future did not complete on first poll");
     };
@@ -228,6 +234,14 @@ fn blocks(eol: &[u8]) -> Vec<(&'static str, Vec<u8>)> {
                 b"",
             ]),
         ),
+        // the SSE event NAME and the payload TYPE disagree: the name is transport, the type decides
+        ("text_delta under event:message", line(&[b"event: message", b"data: {\"type\":\"response.output_text.delta\",\"delta\":\"A\"}", b""])),
+        (
+            "args_delta under event:output_text.delta",
+            line(&[b"event: response.output_text.delta", b"data: {\"type\":\"response.function_call_arguments.delta\",\"item_id\":\"i1\",\"delta\":\"{p\"}", b""]),
+        ),
+        // a function call item WITHOUT an id (tolerated for validation in the compat mode)
+        ("fn_call_done_without_id", line(&[b"data: {\"type\":\"response.output_item.done\",\"output_index\":0,\"item\":{\"type\":\"function_call\",\"call_id\":\"c1\",\"name\":\"ls\",\"arguments\":\"{}\"}}", b""])),
         ("data:e9 trunc2 at eol", line(&[b"data: \"\xc3\"", b""])),
         ("bare_cr_in_payload", line(&[b"data: a\rb", b""])),
     ]
@@ -347,6 +361,30 @@ fn check_stream(report: &Report, log: &EventLog, stream: &Stream, all_partitions
     if let Err((sig, msg)) = check_reference(&stream.bytes, &single, offset) {
         report.violation(&sig, case_json(stream, &[stream.bytes.clone()], offset), &msg);
     }
+    // the compat validation mode (stateless-history runs): same reference, single chunk and every
+    // one-cut partition
+    {
+        let compat = run_pipe_mode(log, offset, &[stream.bytes.clone()], true);
+        report.eval(None::<&u8>);
+        report.count("compat_mode_runs", 1);
+        if let Err((sig, msg)) = check_reference(&stream.bytes, &compat, offset) {
+            let mut case = case_json(stream, &[stream.bytes.clone()], offset);
+            case["validation_mode"] = json!("compat_missing_item_ids");
+            report.violation(&format!("{sig}:compat"), case, &msg);
+        } else if stream.bytes.len() <= 160 {
+            for i in 1..stream.bytes.len() {
+                let chunks = splits(&stream.bytes, &[i]);
+                let got = run_pipe_mode(log, offset, &chunks, true);
+                report.eval(None::<&u8>);
+                if got != compat {
+                    let mut case = case_json(stream, &chunks, offset);
+                    case["validation_mode"] = json!("compat_missing_item_ids");
+                    report.violation(&format!("{}:compat", classify_diff(&compat, &got, &stream.bytes)), case, "partition differs from single chunk in the compat validation mode");
+                    break;
+                }
+            }
+        }
+    }
     let n = stream.bytes.len();
     let mut judge = |chunks: Vec<Vec<u8>>| {
         let got = run_pipe(log, offset, &chunks);
@@ -403,8 +441,9 @@ pub fn replay(report: &Report, case: &Value) {
         chunks.push(bytes[pos..pos + s].to_vec());
         pos += s;
     }
-    let single = run_pipe(&log, offset, &[bytes.clone()]);
-    let got = run_pipe(&log, offset, &chunks);
+    let compat = case["validation_mode"] == "compat_missing_item_ids";
+    let single = run_pipe_mode(&log, offset, &[bytes.clone()], compat);
+    let got = run_pipe_mode(&log, offset, &chunks, compat);
     report.eval(Some(&"replay"));
     println!("single: {:?}\nchunked: {:?}", single.frames, got.frames);
     let stream = Stream { name: "replay".into(), bytes: bytes.clone() };
